@@ -3,6 +3,9 @@
 #include <asmjit/core.h>
 #include <asmjit/core/codewriter_p.h>
 #include <asmjit/core/emitterutils_p.h>
+// file-static helpers (encode_mov_sequence_32/64, encode_lmh) are reached by including the translation unit
+#include <asmjit/arm/a64assembler.cpp>
+#include <asmjit/arm/armutils.h>
 #include "vh.h"
 
 using namespace asmjit;
@@ -40,6 +43,49 @@ static std::string step(const std::string& line) {
   std::vector<std::string> w = vh::words(line);
   OffsetFormat f;
   if (w.empty()) return "bad-op";
+  if (w[0] == "logimm") {
+    uint64_t v, width;
+    if (w.size() != 3 || !vh::parse_hex(w[1], v) || !vh::parse_u64(w[2], width) || (width != 32 && width != 64)) return "bad-op";
+    arm::Utils::LogicalImm li;
+    if (!arm::Utils::encode_logical_imm(v, uint32_t(width), Out(li))) return "fail";
+    return "ok " + std::to_string(li.n) + " " + std::to_string(li.s) + " " + std::to_string(li.r);
+  }
+  if (w[0] == "addsub") {
+    uint64_t v;
+    if (w.size() != 2 || !vh::parse_hex(w[1], v)) return "bad-op";
+    return arm::Utils::is_add_sub_imm(v) ? "1" : "0";
+  }
+  if (w[0] == "fp") {
+    uint64_t v;
+    if (w.size() != 3 || !vh::parse_hex(w[2], v)) return "bad-op";
+    if (w[1] == "16") return arm::Utils::is_fp16_imm8(uint32_t(v)) ? "1 " + std::to_string(arm::Utils::encode_fp_to_imm8_generic<uint32_t, 3, 6, 6>(uint32_t(v))) : "0";
+    if (w[1] == "32") return arm::Utils::is_fp32_imm8(uint32_t(v)) ? "1 " + std::to_string(arm::Utils::encode_fp_to_imm8_generic<uint32_t, 6, 6, 19>(uint32_t(v))) : "0";
+    if (w[1] == "64") return arm::Utils::is_fp64_imm8(v) ? "1 " + std::to_string(arm::Utils::encode_fp64_to_imm8(v)) : "0";
+    return "bad-op";
+  }
+  if (w[0] == "bytemask") {
+    uint64_t v;
+    if (w.size() != 2 || !vh::parse_hex(w[1], v)) return "bad-op";
+    return arm::Utils::is_byte_mask_imm(v) ? "1 " + std::to_string(arm::Utils::encode_imm64_byte_mask_to_imm8(v)) : "0";
+  }
+  if (w[0] == "movseq") {
+    uint64_t imm, rd, x;
+    if (w.size() != 4 || !vh::parse_hex(w[1], imm) || !vh::parse_u64(w[2], rd) || !vh::parse_u64(w[3], x) || rd > 31 || x > 1) return "bad-op";
+    uint32_t out[8] = {0xdeadbeef, 0xdeadbeef, 0xdeadbeef, 0xdeadbeef, 0xdeadbeef, 0xdeadbeef, 0xdeadbeef, 0xdeadbeef};
+    uint32_t n = a64::encode_mov_sequence_64(out, imm, uint32_t(rd), uint32_t(x));
+    std::string r = "seq";
+    for (uint32_t i = 0; i < n && i < 8; i++) r += " " + vh::to_hex(out[i]);
+    for (uint32_t i = 4; i < 8; i++) if (out[i] != 0xdeadbeef) return "buffer-overrun";
+    return r;
+  }
+  if (w[0] == "lmh") {
+    uint64_t sz, idx;
+    if (w.size() != 3 || !vh::parse_u64(w[1], sz) || !vh::parse_u64(w[2], idx)) return "bad-op";
+    a64::LMHImm o{0, 0, 0};
+    if (sz != 1 && sz != 2) return a64::encode_lmh(uint32_t(sz), uint32_t(idx), Out(o)) ? "unexpected-ok" : "fail";
+    bool ok = a64::encode_lmh(uint32_t(sz), uint32_t(idx), Out(o));
+    return std::string(ok ? "1 " : "0 ") + std::to_string(o.lm) + " " + std::to_string(o.h) + " " + std::to_string(o.max_rm_id);
+  }
   if (w[0] == "enc") {
     uint64_t off;
     if (w.size() != 8 || !parse_fmt(w, 1, f) || !vh::parse_hex(w[7], off)) return "bad-op";
